@@ -35,6 +35,8 @@ func runC11(c *Ctx) {
 	if es := c.P.LangFunc("(*Evaluator).evalStatement"); es != nil {
 		c.shared("R24", "C07/R7", "an unknown $-variable is a fault in the position of a for-in variable as well: the loop variables are obtained through getVariable, which refuses unknown $-names (not through a helper that declares whatever name it is given)", keyHas("for-in ", "binding-before-body"), func(s *Ctx) { c07ForIn(s, es) })
 	}
+	c.shared("R25", "C13/R3", "a lone backslash at the end of a string literal is a fault wherever it stands: the escape scanner reports it on every path (an earlier escape in the same literal does not disarm the test)", keyHas("trailing-backslash-is-error", "escape "), runC13)
+	c.shared("R26", "C18/R2", "a printf argument of the wrong kind is a fault: %s and %f obtain their argument through the argument check with the kind they need", keyHas("directive lang.checkArg", "argument-check"), runC18)
 	c.shared("R16", "C13/R6", "a missing statement separator is a syntax error: a statement end is recorded only where a separator, a newline or the closing brace of a block was consumed, and the answer of the statement-end test is never dropped", keyHas("statement-end", "newline-ends", "advance-clears"), c13NewlineFlag)
 	c.shared("R18", "C15/R2", "comparing containers is a fault that contains does not ignore: it returns a verdict only where the comparison of every element looked at succeeded, and the first comparison error is returned at once", keyHas("array.contains", "every-element-compared"), func(s *Ctx) { c15R2(s, nativeMethods(s.P)); c15NestedCalls(s) })
 	c.shared("R21", "C13/R5", "a stray `&` or `|` is a syntax error: the operator tokens are exactly the documented spellings, a single `&` / `|` is not one of them and falls through to the illegal-character error", keyHas("spelling"), c13Operators)
